@@ -473,7 +473,7 @@ def rule_tokendesc(chk, prog, tier):
         for n in (None, 1, 10, 50, 62, 63, 64, 65, 200, 5000):
             if n is None and kind == 'TOTHER': continue
             def runner(it):
-                buf = Obj('buf', 'local'); buf.bytebuf = True
+                buf = Obj('buf', 'local'); buf.bytebuf = True; buf.limit = BUF
                 for k in range(BUF): buf.f[(k,)] = 0
                 lit = None
                 if n is not None:
@@ -503,6 +503,8 @@ def rule_tokendesc(chk, prog, tier):
                 it.call(fn, [Ptr(buf, (0,)), BUF, ev(prog, kind), lit])
                 return bad
             runs = explore(prog, runner, {}, max_runs=4, on_unsupported='keep')
+            if len(runs) == 1 and runs[0].outcome == 'terminal:out-of-bounds':
+                r.instance(False, 'tokendesc:%s,len=%s' % (kind, n), 'token.c:%s' % fn.get('line'), str(runs[0].detail)); continue
             if len(runs) != 1 or runs[0].outcome != 'return':
                 raise AnalysisBroken('tokendesc(%s, %s): %s %s' % (kind, n, runs[0].outcome if runs else '?', runs[0].detail if runs else ''))
             bad = runs[0].value
@@ -551,3 +553,6 @@ def run(chk, tier):
     chk.guard('C19.j', lambda: rule_pp_eof(chk, prog, tier))
     chk.guard('C19.k', lambda: rule_tokendesc(chk, prog, tier))
     chk.guard('C19.l', lambda: rule_pp_uaf(chk, prog, tier))
+    from props import c14, c04
+    chk.guard('C14.a', lambda: c14.rule_escapes(chk, prog, tier))       # the scanner invariant decodechar's assertions rely on
+    chk.guard('C04.c', lambda: c04.rule_traps(chk, prog, tier))         # no trapping host arithmetic in the folder
